@@ -11,6 +11,8 @@ package strategies
 // remaining share of the reclaimee is NOT within its deserved quota in every resource
 //@ define overDeserved(q *rs.QueueAttributes, rem rs.ResourceQuantities) bool = !(rs.leq(rem["CPU"], q.CPU.Deserved) && rs.leq(rem["Memory"], q.Memory.Deserved) && rs.leq(rem["GPU"], q.GPU.Deserved))
 // the reclaimer's queue stays within its deserved quota in every resource after receiving the request
+// a memoised quantity map of q is either untouched or replaced by a newly allocated map
+//@ define cachesKeptOrNew(q *rs.QueueAttributes) bool = (q.lastDeservedShare == old(q.lastDeservedShare) || fresh(q.lastDeservedShare)) && (q.lastFairShare == old(q.lastFairShare) || fresh(q.lastFairShare))
 //@ define reclaimerWithinQuota(res *ri.Resource, q *rs.QueueAttributes) bool = rs.leq(q.CPU.Allocated + res.milliCpu, q.CPU.Deserved) && rs.leq(q.Memory.Allocated + res.memory, q.Memory.Deserved) && rs.leq(q.GPU.Allocated + res.gpus + ri.migGpus(res), q.GPU.Deserved)
 
 //@ func reclaimerWillGoOverQuota
@@ -19,6 +21,7 @@ package strategies
 //@   modifies reclaimerQueue.lastDeservedShare
 //@   ensures result == !reclaimerWithinQuota(reclaimerResources, reclaimerQueue)
 //@   ensures rs.cacheOK(reclaimerQueue)
+//@   ensures [cachesKeptOrNew] cachesKeptOrNew(reclaimerQueue)
 //@ end
 
 //@ func (*MaintainFairShareStrategy).Reclaimable
@@ -27,6 +30,7 @@ package strategies
 //@   modifies reclaimeeQueue.lastDeservedShare, reclaimeeQueue.lastFairShare, reclaimerQueue.lastDeservedShare, reclaimerQueue.lastFairShare
 //@   ensures result == overAllocatable(reclaimeeQueue, reclaimeeRemainingShare)
 //@   ensures rs.cacheOK(reclaimeeQueue) && rs.cacheOK(reclaimerQueue)
+//@   ensures [cachesKeptOrNew] cachesKeptOrNew(reclaimeeQueue) && cachesKeptOrNew(reclaimerQueue)
 //@ end
 
 //@ func (*GuaranteeDeservedQuotaStrategy).Reclaimable
@@ -35,6 +39,7 @@ package strategies
 //@   modifies reclaimeeQueue.lastDeservedShare, reclaimeeQueue.lastFairShare, reclaimerQueue.lastDeservedShare, reclaimerQueue.lastFairShare
 //@   ensures result == (reclaimerWithinQuota(reclaimerResources, reclaimerQueue) && overDeserved(reclaimeeQueue, reclaimeeRemainingShare))
 //@   ensures rs.cacheOK(reclaimeeQueue) && rs.cacheOK(reclaimerQueue)
+//@   ensures [cachesKeptOrNew] cachesKeptOrNew(reclaimeeQueue) && cachesKeptOrNew(reclaimerQueue)
 //@ end
 
 // Property C07 (top-level, from the property text): resources are taken only from queues above
@@ -49,4 +54,5 @@ package strategies
 //@   ensures [withinQuotaIsSafe] !overDeserved(reclaimeeQueue, reclaimeeRemainingShare) && !overAllocatable(reclaimeeQueue, reclaimeeRemainingShare) ==> !result
 //@   ensures [starvedReclaimerServed] reclaimerWithinQuota(reclaimerResources, reclaimerQueue) && overDeserved(reclaimeeQueue, reclaimeeRemainingShare) ==> result
 //@   ensures rs.cacheOK(reclaimeeQueue) && rs.cacheOK(reclaimerQueue)
+//@   ensures [cachesKeptOrNew] cachesKeptOrNew(reclaimeeQueue) && cachesKeptOrNew(reclaimerQueue)
 //@ end
